@@ -5,7 +5,7 @@
 //   -> ok T0=<log> A0=<log> T1=... A1=...
 // ops: c<i> create  d<i> destroy  m<i> malloc+store  r<i> read back  p<i> pointer cell round trip
 //      g<i> register callback  u<i> unregister  f<i> function-pointer cell round trip (example-based lookup)
-//      i<i> invoke (with a callback when one is registered)
+//      i<i> invoke (with a callback when one is registered)  a<i> app pointer: register, look up, release
 #include <cstdint>
 #include <string>
 #ifdef THR_NOOP
@@ -167,6 +167,22 @@ static void do_op(Ctx& c, const std::string& op)
           add("i" + std::to_string(r.UNSAFE_unverified()));
         }
         break;
+      }
+      case 'a': {
+        // app pointer: register an application object, look the token up, release it; the token values a thread gets for ITS
+        // sandbox do not depend on what other threads do with theirs
+        if (!in.created) { add("-"); break; }
+        static thread_local int obj;
+        auto ap = in.sb.get_app_pointer(&obj);
+        auto t = ap.to_tainted();
+#ifdef THR_NOOP
+        uintptr_t tok = reinterpret_cast<uintptr_t>(t.UNSAFE_unverified());
+#else
+        uintptr_t tok = reinterpret_cast<uintptr_t>(t.UNSAFE_unverified()) - in.sb.get_sandbox_impl()->Base;
+#endif
+        bool ok = in.sb.lookup_app_ptr(t) == &obj;
+        ap.unregister();
+        add("a" + std::to_string(tok) + (ok ? "" : "!")); break;
       }
       default: add("?");
     }
